@@ -338,6 +338,19 @@ def inputs_for_case(rng, case, exhaustive_budget=300, nrandom=25, nmut=40, max_l
     alphabet = list(case.g.terms)
     for s in case.g.starts():
         ins, L = gen.inputs_for(rng, case.cfg, s, alphabet, exhaustive_budget, nrandom, nmut, max_len)
+        if getattr(case.g, "finite", False):
+            from . import gen3
+            sents = gen3.all_sentences(case.cfg, s)
+            if sents:
+                have = {tuple(w) for w in ins}
+                for w in sents:
+                    if tuple(w) not in have:
+                        ins.append(w)
+                for w in sents:
+                    m = gen.mutate(rng, w, alphabet, 1)
+                    if tuple(m) not in have:
+                        have.add(tuple(m))
+                        ins.append(m)
         if foreign:
             # a few inputs containing a token kind the grammar does not mention
             base = [w for w in ins if w][:40]
